@@ -78,6 +78,7 @@ type state struct {
 	routes  *mockRoutes
 	live    map[int]ep // the property's own view: live endpoints
 	renamed bool       // a live endpoint changed its interface name earlier in this case
+	batched bool       // a CompleteDeferredWork with >=2 distinct pending ids happened earlier in this case
 }
 
 func wid(id int) *proto.WorkloadEndpointID {
@@ -214,6 +215,10 @@ func (s *state) oracle(h *rt.H, op string) {
 	suffix := ":norename"
 	if s.renamed {
 		suffix = ":rename"
+	} else if s.batched {
+		// rename-free, but several updates were pending at once: only the lost-pending-entry defect
+		// (promotion overwrites pendingWlEpUpdates[best]) can make the oracle fail here
+		suffix = ":batch"
 	}
 	pref := map[int]int{}
 	for id, e := range s.live {
@@ -292,6 +297,7 @@ func exec(h *rt.H, s *state, op string) string {
 			renderer, s.routes, rules.NewEndpointMarkMapper(0xff00, 0x0100), mockLinkAddrs{})
 		s.live = map[int]ep{}
 		s.renamed = false
+		s.batched = false
 		return s.dump()
 	case "up":
 		id := atoi(w[1])
@@ -306,6 +312,40 @@ func exec(h *rt.H, s *state, op string) string {
 		id := atoi(w[1])
 		s.m.OnUpdate(&proto.WorkloadEndpointRemove{Id: wid(id)})
 		delete(s.live, id)
+	case "batch":
+		ids := map[int]bool{}
+		before := map[int]ep{}
+		for id, e := range s.live {
+			before[id] = e
+		}
+		for _, ent := range w[1:] {
+			f := strings.Split(ent, ":")
+			id := atoi(f[1])
+			ids[id] = true
+			if f[0] == "u" {
+				e := ep{name: atoi(f[2]), up: f[3] != "0", data: atoi(f[4])}
+				s.m.OnUpdate(&proto.WorkloadEndpointUpdate{Id: wid(id), Endpoint: mkEp(id, e)})
+				s.live[id] = e
+			} else {
+				s.m.OnUpdate(&proto.WorkloadEndpointRemove{Id: wid(id)})
+				delete(s.live, id)
+			}
+		}
+		// the manager only sees the LAST message per id: an endpoint that was live before the batch and is
+		// live with another interface name after it has been renamed as far as the manager can tell
+		// (even if the batch deleted and re-created it)
+		for id := range ids {
+			if old, ok := before[id]; ok {
+				if cur, ok2 := s.live[id]; ok2 && cur.name != old.name {
+					s.renamed = true
+					h.Count("rename")
+				}
+			}
+		}
+		if len(ids) >= 2 {
+			s.batched = true
+			h.Count("batch:multi-id")
+		}
 	default:
 		panic("unknown op " + op)
 	}
@@ -341,7 +381,33 @@ func genCase(h *rt.H) []string {
 	}
 	data := 0
 	n := 3 + h.Intn(22)
+	batches := h.Chance(0.4)
+	genEntry := func() string {
+		id := h.Intn(nid)
+		if h.Intn(10) < 6 {
+			name := home[id]
+			if !fixedNames && h.Chance(0.5) {
+				name = h.Intn(nname)
+			}
+			data++
+			up := 1
+			if h.Chance(0.15) {
+				up = 0
+			}
+			return fmt.Sprintf("u:%d:%d:%d:%d", id, name, up, data)
+		}
+		return fmt.Sprintf("r:%d", id)
+	}
 	for i := 0; i < n; i++ {
+		if batches && h.Chance(0.35) {
+			k := 2 + h.Intn(3)
+			parts := []string{"batch"}
+			for j := 0; j < k; j++ {
+				parts = append(parts, genEntry())
+			}
+			ops = append(ops, strings.Join(parts, " "))
+			continue
+		}
 		id := h.Intn(nid)
 		if h.Intn(10) < 7 {
 			name := home[id]
@@ -365,21 +431,31 @@ func main() {
 	h := rt.New()
 	defer h.Close()
 	h.Rule = "case = `new` + 3..24 single-update batches over 2..4 endpoint ids and 1..3 interface names {up id iface adminUp data (fresh data per update), rm id}; " +
-		"45% of cases never rename a live endpoint; CompleteDeferredWork after every update; distinct = distinct op sequence; " +
+		"45% of cases never rename a live endpoint; CompleteDeferredWork after every update, and in 40% of cases also batches of 2..4 updates before ONE CompleteDeferredWork (compared order-insensitively); distinct = distinct op sequence; " +
 		"non-trivial = at some point an endpoint is shadowed and later an endpoint is removed or renamed"
 	run := func(ops []string, tag string) {
 		h.Case(tag)
 		s := &state{}
 		sawShadow, later := false, false
 		for _, op := range ops {
+			if strings.HasPrefix(op, "observe ") {
+				continue // regenerated from the real outcome below (replay files contain them)
+			}
 			if s.live == nil && op != "new" {
 				exec(h, s, "new")
 			}
 			out := exec(h, s, op)
-			h.Op(op, out)
 			name := strings.Fields(op)[0]
+			if name == "batch" {
+				// order-insensitive comparison: the model keeps every outcome any processing order of the
+				// pending map can give and must accept the observed one
+				h.Op(op, "ok")
+				h.Op("observe "+strings.ReplaceAll(out, " ", "_"), "member")
+			} else {
+				h.Op(op, out)
+			}
 			h.Count("op:" + name)
-			if sawShadow && (name == "rm" || name == "up") {
+			if sawShadow && (name == "rm" || name == "up" || name == "batch") {
 				later = true
 			}
 			if !strings.Contains(out, "S[-]") {
